@@ -107,7 +107,13 @@ func (e *EventFilter) SetRangeEndBlockToL1Head(filterRange EventFilterRange) err
 	if err != nil {
 		return err
 	}
-	return e.SetRangeEndBlockByNumber(filterRange, l1Head.BlockNumber)
+	// The L1 head can be ahead of the local chain while the node syncs: the latest L1-accepted
+	// block the node holds is then its head (same convention as rpc l1AcceptedBlockNumber).
+	height, err := core.GetChainHeight(e.database)
+	if err != nil {
+		return err
+	}
+	return e.SetRangeEndBlockByNumber(filterRange, min(l1Head.BlockNumber, height))
 }
 
 // Close closes the underlying database transaction that provides the blockchain snapshot
